@@ -958,7 +958,10 @@ fn read_leb(data: &[u8], p: usize) -> Option<(u64, usize)> {
 }
 
 const EXTREMES: [u64; 9] = [0, 1, 127, 128, 65535, u32::MAX as u64, (u32::MAX as u64) + 1, 1 << 63, u64::MAX];
-const BADUTF8: [&[u8]; 6] = [&[0xff], &[0x80], &[0xc0, 0xaf], &[0xed, 0xa0, 0x80], &[0xf0, 0x9f], &[0xe2, 0x82]];
+// invalid UTF-8 of every class: stray bytes, overlong forms (2, 3, 4 bytes), a UTF-16 surrogate, a truncated sequence,
+// code points above U+10FFFF, lead bytes that cannot occur
+const BADUTF8: [&[u8]; 11] = [&[0xff], &[0x80], &[0xc0, 0xaf], &[0xed, 0xa0, 0x80], &[0xf0, 0x9f], &[0xe2, 0x82],
+                              &[0xe0, 0x80, 0xaf], &[0xf0, 0x80, 0x80, 0xaf], &[0xf4, 0x90, 0x80, 0x80], &[0xf5, 0x80, 0x80, 0x80], &[0xc1, 0xbf]];
 
 /// One job = (target, base bytes, list of mutation descriptors).  The worker applies each mutation
 /// and feeds the result; descriptors: {"k": kind, "p": position, "v": value index, "fix": bool}
@@ -1006,6 +1009,16 @@ fn mutate_bytes(base: &[u8], m: &J) -> Option<Vec<u8>> {
             }
             let mut x = d.to_vec();
             x[q..q + bad.len()].copy_from_slice(bad);
+            Some(x)
+        }),
+        "hashswap" => apply_in_chunk(p, &|d, q| {
+            // overwrite the 32-byte hash at q by another hash of the same history
+            let h = hex::decode(m["h"].as_str()?).ok()?;
+            if h.len() != 32 || q + 32 > d.len() {
+                return None;
+            }
+            let mut x = d.to_vec();
+            x[q..q + 32].copy_from_slice(&h);
             Some(x)
         }),
         "dupchunk" => {
@@ -1180,7 +1193,47 @@ fn mutate(args: &[String]) {
                 None => (vec![], String::new(), vec![], String::new()),
             }
         };
+        // a document with (at least) two heads: its head list is a place where one hash can be replaced by another
+        let (twoheads, th_hashes) = {
+            let mut a = doc.clone().with_actor(enc::actor_from_num(71));
+            let mut b = doc.fork().with_actor(enc::actor_from_num(72));
+            for (d, k) in [(&mut a, "ha"), (&mut b, "hb")] {
+                use automerge::transaction::Transactable;
+                let mut tx = d.transaction();
+                let _ = tx.put(automerge::ROOT, k, 1i64);
+                tx.commit();
+            }
+            let _ = a.merge(&mut b);
+            let hs: Vec<ChangeHash> = a.get_changes(&[]).iter().map(|c| c.hash()).collect();
+            (a.save_with_options(automerge::SaveOptions { deflate: false, retain_orphans: true }), hs)
+        };
+        // the strings of the document: keys, mark names, change messages, string values
+        let doc_strings: Vec<String> = {
+            let mut set: std::collections::BTreeSet<String> = Default::default();
+            let v = amverif::proj::view(&doc, None);
+            for o in v.as_array().cloned().unwrap_or_default() {
+                for e in o["ents"].as_array().cloned().unwrap_or_default() {
+                    if let Some(k) = e["k"].as_str() {
+                        set.insert(k.to_string());
+                    }
+                }
+                let id = amverif::calls::objid_from(&o["id"]);
+                if let Ok(ms) = doc.marks(&id) {
+                    for m in ms {
+                        set.insert(m.name().to_string());
+                    }
+                }
+            }
+            for c in &changes {
+                if let Some(m) = c.message() {
+                    set.insert(m.to_string());
+                }
+            }
+            set.insert("big".into());
+            set.into_iter().filter(|s| s.len() >= 2 || s.chars().all(|c| c.is_ascii_alphabetic())).take(12).collect()
+        };
         let bases: Vec<(&str, Vec<u8>, Vec<&str>)> = vec![
+            ("doc_twoheads", twoheads.clone(), vec!["load"]),
             ("doc_raw", raw.clone(), vec!["load", "load_partial", "rescue", "load_incremental"]),
             ("doc_deflated", deflated, vec!["load", "load_incremental"]),
             ("incremental", inc, vec!["load_incremental", "load"]),
@@ -1239,6 +1292,52 @@ fn mutate(args: &[String]) {
                 }
                 for p in 0..n.min(if thorough { 2000 } else { 60 }) {
                     push(json!({"k":"trunc","p":p,"v":0,"fix":false}), "trunc");
+                }
+                if matches!(*name, "doc_raw" | "change" | "bundle" | "incremental" | "doc_twoheads") {
+                    // structure-aware: every occurrence of a string of the document (keys, mark names, messages,
+                    // string values) gets every invalid sequence that fits into it, checksum fixed
+                    let mut nut = 0;
+                    for sname in &doc_strings {
+                        let sb = sname.as_bytes();
+                        if sb.is_empty() {
+                            continue;
+                        }
+                        let mut from = 0usize;
+                        let mut occ = 0;
+                        while let Some(off) = bytes[from..].windows(sb.len()).position(|w| w == sb).map(|x| x + from) {
+                            for (v, bad) in BADUTF8.iter().enumerate() {
+                                if bad.len() <= sb.len() && nut < (if thorough { 3000 } else { 260 }) {
+                                    nut += 1;
+                                    push(json!({"k":"utf8","p":off,"v":v,"fix":true}), "utf8-in-string");
+                                    if bad.len() < sb.len() {
+                                        push(json!({"k":"utf8","p":off + sb.len() - bad.len(),"v":v,"fix":true}), "utf8-in-string");
+                                    }
+                                }
+                            }
+                            from = off + 1;
+                            occ += 1;
+                            if occ >= (if thorough { 6 } else { 2 }) {
+                                break;
+                            }
+                        }
+                    }
+                }
+                if *name == "doc_twoheads" {
+                    // every stored hash (heads) replaced by every other hash of the history, checksum fixed
+                    let mut nsw = 0;
+                    for (hi, h) in th_hashes.iter().enumerate() {
+                        let hb: &[u8] = h.as_ref();
+                        let mut from = 0usize;
+                        while let Some(off) = bytes[from..].windows(32).position(|w| w == hb).map(|x| x + from) {
+                            for (oi, o2) in th_hashes.iter().enumerate().rev().take(if thorough { 12 } else { 4 }) {
+                                if oi != hi && nsw < (if thorough { 400 } else { 40 }) {
+                                    nsw += 1;
+                                    push(json!({"k":"hashswap","p":off,"v":0,"h":hex::encode(o2.as_ref() as &[u8]),"fix":true}), "hashswap");
+                                }
+                            }
+                            from = off + 32;
+                        }
+                    }
                 }
                 for p in 0..4 {
                     push(json!({"k":"dupchunk","p":p,"v":0}), "dupchunk");
